@@ -17,6 +17,10 @@ def boolMask (j : Json) : R (Arr Bool) := do
 
 def handle (op : String) (j : Json) : Option (R Json) :=
   match op with
+  | "zsrc" => some do
+    let rn ← getBool j "rho_none"; let tn ← getBool j "theta_none"
+    pure (okJ [("src", Json.str (match Gen.zernCoordSrc rn tn with
+      | .default => "default" | .caller => "caller" | .refuse => "refuse"))])
   | "noll" => some do
       let a ← getNat j "j0"; let b ← getNat j "j1"
       let js := (List.range (b - a + 1)).map (· + a)
